@@ -126,7 +126,7 @@ func (g *Gen) instr(f *Frame, ci *cfgInfo, b *ssa.BasicBlock, ins ssa.Instructio
 		for _, r := range i.Results {
 			rs = append(rs, g.val(f, r))
 		}
-		f.exits = append(f.exits, Exit{en: f.en, st: f.st.clone(), results: rs})
+		f.exits = append(f.exits, Exit{en: f.en, st: f.st.clone(), results: rs, recovered: f.inRecovered})
 	case *ssa.Panic:
 		pv := g.val(f, i.X)
 		f.panics = append(f.panics, Exit{en: f.en, st: f.st.clone(), pval: pv.S, ndefers: len(f.defers), blk: f.curBlock})
